@@ -93,7 +93,7 @@ func writeEvidence(o *Options, all []*harnessStats, findings []*finding, violati
 		"traces_validated_against_impl": validated,
 		"samples":                       samples,
 		"exhaustive":                    len(inconclusive) == 0,
-		"explanation": "states = feasible symbolic paths explored to completion (each path is a set of inputs described by a path condition; every branch feasibility and every assertion on it was decided by the SMT solver); transitions = SSA instructions executed symbolically; traces_validated_against_impl = solver models of passing paths re-run natively (go test -overlay) with all assertions and observations compared.",
+		"explanation":                   "states = feasible symbolic paths explored to completion (each path is a set of inputs described by a path condition; every branch feasibility and every assertion on it was decided by the SMT solver); transitions = SSA instructions executed symbolically; traces_validated_against_impl = solver models of passing paths re-run natively (go test -overlay) with all assertions and observations compared.",
 		"functions_encoded":             fl,
 		"functions_encoded_count":       len(fl),
 		"bounds":                        bounds,
@@ -103,15 +103,15 @@ func writeEvidence(o *Options, all []*harnessStats, findings []*finding, violati
 			"assertion_queries":                  assertQ,
 			"feasibility_queries":                feasQ,
 			"branches_decided_by_cached_model":   modelHits,
-			"sat": sat, "unsat": unsat, "unknown": unknown, "errors": serr,
+			"sat":                                sat, "unsat": unsat, "unknown": unknown, "errors": serr,
 		},
-		"solver_time_s":     map[string]any{"z3-4.8.12 (incremental)": round1(solverTime.Seconds())},
-		"cover_witnesses":   cl,
-		"path_ends":         ends,
-		"unsupported_sites": unsupported,
-		"findings":          fsum,
+		"solver_time_s":      map[string]any{"z3-4.8.12 (incremental)": round1(solverTime.Seconds())},
+		"cover_witnesses":    cl,
+		"path_ends":          ends,
+		"unsupported_sites":  unsupported,
+		"findings":           fsum,
 		"known_findings_hit": knownHit,
-		"inconclusive":      inconclusive,
+		"inconclusive":       inconclusive,
 	}
 	ev := map[string]any{
 		"property_id": o.Property,
